@@ -138,7 +138,11 @@ func (w *World) Fn(pkgRel, name string) *ssa.Function {
 		}
 		return w.Prog.MethodValue(sel)
 	}
-	return sp.Func(name)
+	if f := sp.Func(name); f != nil {
+		return f
+	}
+	// the name is gone: the function that plays its part (anchors.go)
+	return w.anchorOf(pkgRel, name)
 }
 
 // Anon returns the anonymous functions (transitively) nested in fn.
